@@ -470,6 +470,71 @@ def run(prog, check):
                 nid += 1
                 check.ob('C17.R5', '%s::ID-use(%s)' % (f.key, kind), ok, '%s:%d' % (f.module.rel, x.lineno),
                          'object counter used for ' + kind, 'the same model built after another model in the same process')
+    # ---- R3 (cont.): a message is only treated as a format template when data came with it ---------------------------
+    LG = prog.classes.get('Logger')
+    lg_init = LG.methods.get('__init__') if LG else None
+    n_fmt = 0
+    seen_fmt = set()
+    for lg_m in (list(LG.methods.values()) if LG else []):
+        from ..cfg import atomic_facts as _facts17
+        lg_init = lg_m
+        lgf = flatten(prog, lg_m)
+        glg = cfgmod.build(lgf)
+        data_p = [p_ for p_ in lgf.params() if 'format' in p_.lower() or 'data' in p_.lower()]
+        for nd in glg.stmt_nodes():
+            if nd.kind != 'stmt':
+                continue
+            for c in ast.walk(nd.ast):
+                if isinstance(c, ast.Call) and isinstance(c.func, ast.Attribute) and c.func.attr == 'format' and \
+                        any(isinstance(a_, ast.Starred) for a_ in c.args):
+                    if (c.lineno, c.col_offset) in seen_fmt:
+                        continue
+                    seen_fmt.add((c.lineno, c.col_offset))
+                    n_fmt += 1
+                    star = [a_.value for a_ in c.args if isinstance(a_, ast.Starred)][0]
+                    plain = isinstance(star, ast.Name) and star.id in data_p
+                    guarded = False
+                    for test, outcome in glg.conditions_at(nd):
+                        for _, v_, e_ in _facts17(test, outcome):
+                            if isinstance(e_, ast.Compare) and len(e_.ops) == 1 and isinstance(e_.ops[0], ast.Is) and isinstance(e_.left, ast.Name) \
+                                    and e_.left.id in data_p and isinstance(e_.comparators[0], ast.Constant) and e_.comparators[0].value is None and v_ is False:
+                                guarded = True
+                            if isinstance(e_, ast.Name) and e_.id in data_p and v_ is True:
+                                guarded = True
+                    ok_f = plain and guarded
+                    check.saw(lg_init)
+                    check.ob('C17.R3', '%s::template-only-with-data' % lg_init.key, ok_f, '%s:%d' % (lgf.module.rel, c.lineno),
+                             'the message text is run through str.format only when the caller supplied data for it' if ok_f else
+                             'the message text is run through str.format even when no data came with it: free text containing braces (a '
+                             'description, an equation) raises - but only when a log is registered', "a description 'Y_{t-1}' logged with and without a registered log")
+    if LG is not None and not n_fmt:
+        raise AnalysisError('Logger: the place where message data is formatted into the text was not found')
+    # ---- R6 (cont.): solving does not edit the solver's own configuration ---------------------------------------------
+    # a `Parameter...` data member is set by the constructor and by the user; a method that re-sets it through `self` makes
+    # the next identical call take another path (a working copy of the solver may of course be configured)
+    from ..inline import judged_at_callers as _jac17
+    cfg_funcs = list(solver_cls.methods.values())
+    at_callers17 = _jac17(prog, cfg_funcs)
+    seen17 = set()
+    n_cfg = 0
+    for f_raw in cfg_funcs:
+        if f_raw.name == '__init__' or f_raw.key in at_callers17:
+            continue
+        fl = flatten(prog, f_raw)
+        for n in ast.walk(fl.node):
+            tg = n.targets if isinstance(n, ast.Assign) else ([n.target] if isinstance(n, ast.AugAssign) else [])
+            for t in tg:
+                if isinstance(t, ast.Attribute) and t.attr.startswith('Parameter') and isinstance(t.value, ast.Name) and t.value.id == 'self':
+                    if (fl.module.rel, n.lineno, n.col_offset) in seen17:
+                        continue
+                    seen17.add((fl.module.rel, n.lineno, n.col_offset))
+                    n_cfg += 1
+                    check.saw(f_raw)
+                    check.ob('C17.R6', '%s::configuration-write(%s)' % (f_raw.key, t.attr), False, '%s:%d' % (fl.module.rel, n.lineno),
+                             'self.%s is re-set while solving: a second identical call on the same solver runs with another configuration' % t.attr,
+                             'SolveEquation() called twice on one solver')
+    check.ob('C17.R6', '%s::configuration-only-set-by-constructor-and-user' % solver_cls.key, n_cfg == 0, solver_cls.module.rel,
+             'no method re-sets a Parameter... member of its own solver' if n_cfg == 0 else '%d write(s), listed above' % n_cfg, '')
     check.floor('C17.R1', 2)
     check.floor('C17.R2', 2)
     check.floor('C17.R3', 60)
